@@ -721,11 +721,24 @@ class _Scenario:
                                                       size_multiplier=M)
 
     def estimate(self):
+        """The same observation array is used for several estimates (another
+        user first when there is one, then user 0 twice): an estimator must
+        not depend on, or leave behind, anything in the caller's array.  The
+        LAST estimate of user 0 is the one that is checked."""
         T = self.cfg['T']
+        che = repo_module(CHE)
         if self.occ:
-            out = self.est.estimate_channel_freq_domain(
-                self.received, T, extra_dimension=not self.cfg.get('flat'))
+            kw = dict(extra_dimension=not self.cfg.get('flat'))
+            if len(self.users) > 1 and not isinstance(self.users[-1],
+                                                      np.ndarray):
+                che.CazacBasedWithOCCChannelEstimator(
+                    self.users[-1]).estimate_channel_freq_domain(
+                        self.received, T, **kw)
+            self.est.estimate_channel_freq_domain(self.received, T, **kw)
+            out = self.est.estimate_channel_freq_domain(self.received, T,
+                                                        **kw)
         else:
+            self.est.estimate_channel_freq_domain(self.received, T)
             out = self.est.estimate_channel_freq_domain(self.received, T)
         want = self.H[0]
         if out.ndim == 1:
